@@ -39,9 +39,11 @@ def cts_case(ctx, t):
             for thr in THRS:
                 for dn in range(-2, 3):
                     now = t - (thr + dn)
-                    env.Clock.now = now
                     want = t >= c and (thr <= 0 or t - now < thr)
-                    for verify in (False, True):
+                    # a real clock reads fractions of a second: the whole second counts (int(time())), so now + 0.5 and
+                    # now + 0.999 are the same instant as now
+                    for verify, frac in ((False, 0), (True, 0)) + (((False, 0.5), (True, 0.999)) if 0 <= now < 2 ** 50 else ()):
+                        env.Clock.now = now + frac if frac else now
                         n += 1
                         code = pushc(enc) + op('CHECK_TIMESTAMP_VERIFY' if verify else 'CHECK_TIMESTAMP')
                         r, st, _ = run(code, {'timestamp': t}, additional_flags={'ts_threshold': thr})
@@ -93,9 +95,12 @@ def ce_case(ctx, c):
                 now = c - (ethr + dn)
                 env.Clock.now = now
                 want = c - now < ethr
+                fracs = (0.5, 0.999) if 0 <= now < 2 ** 50 else ()
                 # the epoch window is measured against the verifier clock: the execution timestamp in the cache
                 # (absent, zero, far past, far future) must not matter
-                for verify, tsv in ((False, None), (True, None), (False, 0), (False, now - 1000), (True, now + 1000)):
+                for verify, tsv, frac in ((False, None, 0), (True, None, 0), (False, 0, 0), (False, now - 1000, 0), (True, now + 1000, 0)) + \
+                        tuple((v, None, f) for f in fracs for v in (False, True)):
+                    env.Clock.now = now + frac if frac else now
                     n += 1
                     code = pushc(enc) + op('CHECK_EPOCH_VERIFY' if verify else 'CHECK_EPOCH')
                     r, st, _ = run(code, {} if tsv is None else {'timestamp': max(tsv, 0)}, additional_flags={'epoch_threshold': ethr})
@@ -129,6 +134,55 @@ def ce_case(ctx, c):
         ctx.ran(); ctx.trans(2)
         if r is None:
             ctx.violation({'op': 'CHECK_EPOCH', 'clause': 'malformed input must raise', 'what': what}, f'c={c}: {st}')
+    ctx.evaluations += n - 1
+
+
+def _blk(b):
+    return len(b).to_bytes(2, 'big') + b
+
+
+def wraps(body):
+    """the same instruction inside every kind of nested body (the verifier's thresholds reach all of them)"""
+    fail = op('FALSE') + op('VERIFY')
+    return {
+        'IF': op('TRUE') + op('IF') + _blk(body),
+        'IFELSE_T': op('TRUE') + op('IF_ELSE') + _blk(body) + _blk(fail),
+        'IFELSE_F': op('FALSE') + op('IF_ELSE') + _blk(fail) + _blk(body),
+        'TRY': op('TRY_EXCEPT') + _blk(body) + _blk(b''),
+        'EXCEPT': op('TRY_EXCEPT') + _blk(fail) + _blk(body),
+        'LOOP': op('TRUE') + op('LOOP') + _blk(op('POP0') + body + op('FALSE')) + op('POP0'),
+        'FUNC': op('DEF') + b'\x00' + _blk(body) + op('CALL') + b'\x00',
+        'EVAL': pushc(body) + op('EVAL'),
+        'IF>IFELSE_F': op('TRUE') + op('IF') + _blk(op('FALSE') + op('IF_ELSE') + _blk(fail) + _blk(body)),
+    }
+
+
+def nested_case(ctx, case):
+    kind, which = case
+    n = 0
+    t = 1_700_000_000
+    for thr in (0, 5, 100, 61):
+        for dn in (-1, 0, 1, 70):
+            if which == 'CTS':
+                now = t - (thr + dn)
+                want = thr <= 0 or t - now < thr
+                body = pushc(t.to_bytes(4, 'big')) + op('CHECK_TIMESTAMP')
+                flags = {'ts_threshold': thr}
+            else:
+                now = t - (thr + dn)
+                want = t - now < thr
+                body = pushc(t.to_bytes(4, 'big')) + op('CHECK_EPOCH')
+                flags = {'epoch_threshold': thr}
+            env.Clock.now = now
+            n += 1
+            r, st, _ = run(wraps(body)[kind], {'timestamp': t}, additional_flags=flags)
+            ctx.ran(); ctx.trans(3)
+            ctx.state(('nested', kind, which, thr, dn))
+            g = got_of(r, st)
+            ctx.outcome('nested:' + g[:5])
+            if g != ('true' if want else 'false'):
+                ctx.violation({'op': 'CHECK_TIMESTAMP' if which == 'CTS' else 'CHECK_EPOCH', 'clause': 'verifier threshold inside a nested body',
+                               'inside': kind}, f'{which} inside {kind} threshold {thr} t-now={t - now}: want {want}, got {g} {r!r}')
     ctx.evaluations += n - 1
 
 
@@ -197,6 +251,9 @@ def blocks(tier, seed):
     return [
         Block('CHECK_TIMESTAMP_grid', anchors, cts_case, 't x c in t+-2 x every encoding 1..9 bytes x thr x now around thr', nshards=len(anchors)),
         Block('CHECK_EPOCH_grid', anchors, ce_case, 'c x encodings x ethr x now around ethr', nshards=len(anchors)),
+        Block('nested_placements', [(k, w) for k in wraps(b'') for w in ('CTS', 'CE')], nested_case,
+              'CHECK_TIMESTAMP / CHECK_EPOCH inside IF, both IF_ELSE arms, TRY, EXCEPT, LOOP, DEF/CALL, EVAL x custom thresholds x clock around them',
+              nshards=18),
         Block('timestamp_lock_builders', ts_list, lock_case, 'after / before / between locks (both orders of the bounds) through run_auth_scripts', nshards=len(ts_list)),
     ]
 
